@@ -18,6 +18,9 @@ CONSTANTS
   SharedGen = TRUE
   EmitBeforeClose = FALSE
   MaxHeld = 1
+  MaxSHeld = 0
+  StartBeforeEmit = TRUE
+  CmdFreshTicket = TRUE
 INVARIANT TypeOK
 INVARIANT DistinctTickets
 INVARIANT RegistryExact
